@@ -134,4 +134,90 @@ theorem faultPack_eq_layout (h : Header) (t : Option SecTrailer) (ah cid cc stat
   all_goals simp_all
 
 end Rpc
+namespace Gkdi
+def kdfParamsLayout : List Item := [.const [0, 0, 0, 0, 1, 0, 0, 0], .lenOf "utf16z:hash_name" 4, .const [0, 0, 0, 0], .bytes "utf16z:hash_name"]
+def kdfParamsEnv (hashName : Bytes) : Env where
+  ints _ := 0
+  bytes f := if f = "utf16z:hash_name" then .ok (hashName ++ [0, 0]) else .error .keyError
+theorem kdfParamsPack_eq_layout (hn : Bytes) : kdfParamsPack hn = Layout.pack (kdfParamsEnv hn) kdfParamsLayout := by
+  unfold kdfParamsPack kdfParamsLayout
+  simp only [Layout.pack, kdfParamsEnv, u32]
+  simp (config := { decide := true }) only [if_true, if_false, bind, Except.bind, pure, Except.pure, List.append_assoc, List.append_nil]
+  repeat' split
+  all_goals simp_all
+
+def ffcKeyLayout : List Item :=
+  [.bytes "magic", .int "key_length" 4, .bytes "be:field_order:key_length", .bytes "be:generator:key_length", .bytes "be:public_key:key_length"]
+def ffcKeyEnv (k : FfcKey) : Env where
+  ints f := if f = "key_length" then k.keyLength else 0
+  bytes f := if f = "magic" then .ok dhpb else if f = "be:field_order:key_length" then Py.toBytesBE k.fieldOrder k.keyLength
+    else if f = "be:generator:key_length" then Py.toBytesBE k.generator k.keyLength
+    else if f = "be:public_key:key_length" then Py.toBytesBE k.publicKey k.keyLength else .error .keyError
+theorem toBytesBE_err (n : Int) (k : Nat) (e : PyErr) (h : Py.toBytesBE n k = .error e) : e = .overflowError := by
+  unfold Py.toBytesBE at h; split at h
+  · cases h; rfl
+  · split at h
+    · cases h
+    · cases h; rfl
+theorem toBytesLE_err (n : Int) (k : Nat) (e : PyErr) (h : Py.toBytesLE n k = .error e) : e = .overflowError := by
+  unfold Py.toBytesLE at h; split at h
+  · cases h; rfl
+  · split at h
+    · cases h
+    · cases h; rfl
+
+theorem ffcKeyPack_eq_layout (k : FfcKey) : ffcKeyPack k = Layout.pack (ffcKeyEnv k) ffcKeyLayout := by
+  unfold ffcKeyPack ffcKeyLayout
+  simp only [Layout.pack, ffcKeyEnv, u32]
+  simp (config := { decide := true }) only [if_true, if_false, bind, Except.bind, pure, Except.pure, List.append_assoc, List.append_nil]
+  cases h1 : Py.toBytesBE (k.fieldOrder : Int) k.keyLength with
+  | error e1 =>
+    have := toBytesBE_err _ _ _ h1; subst this
+    cases h4 : Py.toBytesLE (k.keyLength : Int) 4 with
+    | error e4 => have := toBytesLE_err _ _ _ h4; subst this; rfl
+    | ok kl => rfl
+  | ok fo =>
+    cases h2 : Py.toBytesBE (k.generator : Int) k.keyLength with
+    | error e2 =>
+      have := toBytesBE_err _ _ _ h2; subst this
+      cases h4 : Py.toBytesLE (k.keyLength : Int) 4 with
+      | error e4 => have := toBytesLE_err _ _ _ h4; subst this; rfl
+      | ok kl => rfl
+    | ok g =>
+      cases h3 : Py.toBytesBE (k.publicKey : Int) k.keyLength with
+      | error e3 =>
+        have := toBytesBE_err _ _ _ h3; subst this
+        cases h4 : Py.toBytesLE (k.keyLength : Int) 4 with
+        | error e4 => have := toBytesLE_err _ _ _ h4; subst this; rfl
+        | ok kl => rfl
+      | ok pk =>
+        cases h4 : Py.toBytesLE (k.keyLength : Int) 4 with
+        | error e4 => rfl
+        | ok kl => simp
+
+end Gkdi
+
+namespace Rpc
+def syntaxLayout : List Item := [.bytes "uuid_le:uuid", .int "version" 2, .int "version_minor" 2]
+def syntaxEnv (s : SyntaxId) : Env where
+  ints f := if f = "version" then s.version else if f = "version_minor" then s.versionMinor else 0
+  bytes f := if f = "uuid_le:uuid" then .ok s.uuid else .error .keyError
+theorem syntaxPack_eq_layout (s : SyntaxId) : syntaxPack s = Layout.pack (syntaxEnv s) syntaxLayout := by
+  unfold syntaxPack syntaxLayout
+  simp only [Layout.pack, syntaxEnv, le]
+  simp (config := { decide := true }) only [if_true, if_false, bind, Except.bind, pure, Except.pure, List.append_assoc, List.append_nil]
+  repeat' split
+  all_goals simp_all
+
+def resultLayout : List Item := [.int "result" 2, .int "reason" 2, .bytes "uuid_le:syntax", .int "syntax_version" 4]
+def resultEnv (r : ContextResult) : Env where
+  ints f := if f = "result" then r.result else if f = "reason" then r.reason else if f = "syntax_version" then r.syntaxVersion else 0
+  bytes f := if f = "uuid_le:syntax" then .ok r.syntaxUuid else .error .keyError
+theorem resultPack_eq_layout (r : ContextResult) : resultPack r = Layout.pack (resultEnv r) resultLayout := by
+  unfold resultPack resultLayout
+  simp only [Layout.pack, resultEnv, le]
+  simp (config := { decide := true }) only [if_true, if_false, bind, Except.bind, pure, Except.pure, List.append_assoc, List.append_nil]
+  repeat' split
+  all_goals simp_all
+end Rpc
 end DpapiNg
